@@ -105,7 +105,8 @@ class C12(Prop):
         "dsq_open_written", "dsq_bytes_round_trip", "dsq_bytes_round_trip_defaults", "dsq_open_corrupt_header", "dsq_stub_tag",
         "dsq_threaded_read_is_database", "open_rejects", "read_written_database", "chunk_ownership_exclusive", "pipe_lock_discipline",
         "codec_chunk_layout", "codec_unpack_smem", "codec_pack_unpack_smem", "dsq_chunks_unpack_in_place", "codec_pack_smem", "pipe_wait_conditions_guarded", "pipe_lane_local", "pipe_recycling_nchunk_local", "pipe_half_lane_local",
-        "pipe_cut_safety", "pipe_cut_never_eof", "pipe_cut_no_deadlock", "pipe_cut_abort_final", "dsq_loader_outcomes")]
+        "pipe_variant", "pipe_wait_is_stutter", "pipe_progress_enabled", "pipe_liveness_weak_fairness",
+        "pipe_cut_safety", "pipe_cut_never_eof", "pipe_cut_no_deadlock", "pipe_cut_abort_final", "dsq_loader_outcomes", "dsq_cut_data_files")]
     claimed = True
     level_text = ("Theorems for every schedule of one reader and any number of workers (one atomic step per mutex-protected region, spurious wake-ups allowed): "
                   "conservation and exclusivity of blocks, FIFO on both queues (history variables), counters in range and pendingWorkers = number of sleepers, "
@@ -116,7 +117,13 @@ class C12(Prop):
                   "chunk, then EOF, for every database / chunk limits / unpacker and consumer count / schedule; pipeline order, EOF, no deadlock, no lost wake-up, "
                   "buffer conservation; chunk_ownership_exclusive (every chunk buffer has exactly one owner), pipe_lock_discipline (shared fields change only "
                   "under their mutex, private variables only in their thread) and the locality theorems (a step reads and writes no shared field whose mutex it does "
-                  "not hold). esl_threads start barrier. Tie: exact differential run (codec, in-place buffers, file "
+                  "not hold). Liveness: a variant function that every non-wait step decreases (pipe_variant), waits are stutters, and on every weakly fair "
+                  "infinite execution every chunk is returned and Read answers EOF (pipe_liveness_weak_fairness), any number of unpackers / consumers. Work "
+                  "queue under the FULL API (Reset at any moment, sleepers or not): conservation, exclusivity, FIFO, counters, no overflow (wq_full_api_*), "
+                  "Reset in every state (wq_reset_every_state). Data files cut short behind the header: the byte-level loader delivers a prefix of the intact "
+                  "chunks and then takes its fatal short-read branch - never a damaged chunk, never an early EOF (dsq_cut_data_files); the pipeline with that "
+                  "branch as a transition keeps every safety theorem, tells no consumer EOF and does not deadlock (pipe_cut_*). "
+                  "esl_threads start barrier. Tie: exact differential run (codec, in-place buffers, file "
                   "bytes, Open on corrupted files, sequential queue ops) and validation of logged multi-threaded traces against the models, incl. the mutexes held "
                   "in every region and the owner of every chunk touched outside a mutex.")
     level_note = ("Trusted: Lean kernel + propext/Classical.choice/Quot.sound; fidelity of the hand models is checked by differential run / trace validation, not proved; "
@@ -125,7 +132,9 @@ class C12(Prop):
                   "locality theorems (a step commutes with arbitrary changes of every shared field whose mutex it does not hold: other lanes, the other half of its own "
                   "lane, the recycling stack, nchunk - i.e. it does not read them either); on the code this is checked on observed traces (held-mutex sets, snapshots "
                   "under the mutex equal the model state, digests of parked chunks unchanged). Caller contract of the queue stated as `Admissible`. "
-                  "Not covered: the esl_workqueue_queuelock_* variants (unfinished code), fatal-exception paths of the loader (short reads).")
+                  "A .dsqi cut short behind its header is NOT an error in the code (fread's short count is taken as end of data: the database reads as a smaller one, "
+                  "silently) - modelled as it is, compared exactly, reported as a finding. Weak fairness is a hypothesis of the liveness theorem (the scheduler is not modelled). "
+                  "Not covered: the esl_workqueue_queuelock_* variants (unfinished code); the loader's other exceptions (failing pthread calls, allocation failure).")
     diverge_is_violation = True
     fault_is_output = True      # a sanitizer abort is an output line; it must coincide with the model's `fault`
     technique = ("Lean 4 proof (transition system of esl_workqueue with one atomic step per mutex-protected region, inductive invariant over "
@@ -142,14 +151,17 @@ class C12(Prop):
                    "sleeps in WorkerUpdate (counter-example proved: wq_reset_while_pending_loses_wakeup); one reader thread",
                    "covered C functions: esl_workqueue_{Create,Init,Remove,Reset,Complete,ReaderUpdate,WorkerUpdate}; esl_threads_{Create,AddThread,WaitForStart,Started,"
                    "GetData,GetWorkerCount,Finished,WaitForFinish}; esl_dsqdata_{Open,Read,Recycle,Close,Write}, dsqdata_{loader_thread,unpacker_thread,unpack_chunk,unpack5,unpack2,"
-                   "pack5,pack2,chunk_Create}. Not covered: esl_workqueue_queuelock_*, esl_workqueue_Dump, esl_threads_CPUCount",
+                   "pack5,pack2,chunk_Create} incl. the loader's short-read branches (ESL_XEXCEPTION -> ERROR: -> esl_fatal), run in a forked child; esl_workqueue_Dump (its printed text "
+                   "must be the observable state), esl_threads_CPUCount / GetCPUCount. Not covered: esl_workqueue_queuelock_*",
                    "allocation never fails; the file system behaves (fwrite/fread transfer the bytes); host is little-endian (checked by the byte-for-byte comparison)",
                    "index offsets fit int64 (sum of packets / metadata bytes < 2^63), sequences shorter than 6*eslDSQDATA_CHUNK_MAXPACKET (the writer's own limit)"]
     rule = ("cases = codec ops on boundary-rich digital sequences (valid and out-of-range codes, malformed packet streams), sequential queue op histories, "
             "threaded queue runs (1-6 workers, size 1-8, perturbed schedules) whose logged trace must be a path of the model, and write/read-back of "
             "generated databases with 1-4 unpackers x 1-8 consumers x chunk limits from 1 sequence / the packets of the longest sequence (more consumers than chunks, "
             "empty database, one giant sequence, tail carry-over), in-place pack/unpack buffers at their exact limits, byte-for-byte file comparison and Open on files "
-            "with every header byte flipped; non-trivial = all ops answered ok with "
+            "with every header byte flipped; each of .dsqi/.dsqm/.dsqs cut at every record / sequence boundary +-1 (forked child, watchdog); one role (loader / unpackers / "
+            "consumers / reader / workers) slowed down at every wrapped pthread call; the branches of the three transition relations visited by the validated traces are "
+            "recorded in the evidence (transition_coverage); non-trivial = all ops answered ok with "
             "at least one multi-packet / multi-chunk / multi-step result")
     quick_budget_s = 90
 
@@ -171,7 +183,11 @@ class C12(Prop):
             m = re.search(r"%s\s*=\s*([^;]+);" % name, c)
             if not m: raise RuntimeError("esl_dsqdata.c: cannot find %s = <value>;" % name)
             return value(m.group(1), name)
-        return {"magic": static("eslDSQDATA_MAGIC_V1"), "magicSwap": static("eslDSQDATA_MAGIC_V1SWAP"),
+        # does the loader compare the number of sequences it loaded with the header's nseq when it meets end of data? (a .dsqi cut short
+        # behind its header is then a fatal loader error instead of a silently smaller database)
+        m = re.search(r"dsqdata_loader_thread\s*\(void \*p\)\s*\{(.*?)\n\}", c, re.S)
+        checks = bool(m and re.search(r"if\s*\(\s*nidx\s*==\s*0\s*\).{0,700}?[!=]=\s*dd->nseq", m.group(1), re.S))
+        return {"loaderChecksNseq": checks, "magic": static("eslDSQDATA_MAGIC_V1"), "magicSwap": static("eslDSQDATA_MAGIC_V1SWAP"),
                 "chunkMaxseq": define("eslDSQDATA_CHUNK_MAXSEQ"), "chunkMaxpacket": define("eslDSQDATA_CHUNK_MAXPACKET"),
                 "unpackers": define("eslDSQDATA_UNPACKERS"), "umax": define("eslDSQDATA_UMAX")}
 
@@ -188,12 +204,14 @@ class C12(Prop):
                "chunkMaxpacket": "eslDSQDATA_CHUNK_MAXPACKET", "unpackers": "eslDSQDATA_UNPACKERS", "umax": "eslDSQDATA_UMAX"}
         fmt = lambda n, v: ("0x%08x" % v) if n.startswith("magic") else str(v)
         body = "".join("/-- `%s` -/\nabbrev %s : Nat := %s\n" % (doc[n], n, fmt(n, k[n])) for n in ("magic", "magicSwap", "chunkMaxseq", "chunkMaxpacket", "unpackers", "umax"))
+        body += ("/-- does `dsqdata_loader_thread` compare the number of sequences it loaded with `dd->nseq` at end of data? -/\n"
+                 "abbrev loaderChecksNseq : Bool := %s\n" % ("true" if k["loaderChecksNseq"] else "false"))
         return {"EaselModel/Dsqdata/Consts.lean":
                 "/-! GENERATED from esl_dsqdata.h / esl_dsqdata.c of the working tree by props/c12.py (`SPEC.generated`) - do not edit.\n"
                 "The compile-time constants of the dsqdata format and reader. -/\nnamespace EaselModel.Dsqdata.Consts\n" + body + "end EaselModel.Dsqdata.Consts\n"}
 
     def K(self, name):
-        return getattr(self, "_consts", None) and self._consts[name] or {"magic": 0xc4d3d1b1, "chunkMaxseq": 4096, "chunkMaxpacket": 262144, "unpackers": 4, "umax": 4}[name]
+        return getattr(self, "_consts", None) and self._consts[name] or {"magic": 0xc4d3d1b1, "chunkMaxseq": 4096, "chunkMaxpacket": 262144, "unpackers": 4, "umax": 4, "loaderChecksNseq": False}[name]
 
     # ------------------------------------------------------------------ inputs
     def corpus(self, ctx):
@@ -252,8 +270,9 @@ class C12(Prop):
             names.append(nm.encode()); descs.append(ds.encode())
         lst = lambda xs: ",".join("x" + "".join("%02x" % b for b in x) for x in xs) if xs else "-"      # element = "x" + hex (may be empty)
         hold = r.choice([1, 1, 2, 3, 5, 13])     # chunks a consumer works on at once before recycling them (the harness caps it)
-        op = "dsqrt abc=%s maxseq=%d maxpacket=%d unpackers=%d consumers=%d seed=%d pert=%d hold=%d names=%s descs=%s dsq=%s" % (
-            abc, maxseq, maxpacket, unpackers, consumers, seed, pert, hold, lst(names), lst(descs), lst(seqs))
+        slow = r.choice(["-", "-", "L", "U", "C"])      # role slowed down at every wrapped pthread call (rare interleavings)
+        op = "dsqrt abc=%s maxseq=%d maxpacket=%d unpackers=%d consumers=%d seed=%d pert=%d hold=%d slow=%s names=%s descs=%s dsq=%s" % (
+            abc, maxseq, maxpacket, unpackers, consumers, seed, pert, hold, slow, lst(names), lst(descs), lst(seqs))
         if raw:      # database written by the harness itself: accessions and taxonomy ids, every residue code of the alphabet
             accs = [("" if r.random() < 0.3 else "".join(r.choice("ABCXYZ0123456789._") for _ in range(r.randrange(1, 12)))).encode() for _ in seqs]
             # taxonomy ids with high bytes in every position (a byte >= 0x80 must survive the 4-byte store / memcpy back: seeded change C12-c)
@@ -384,13 +403,13 @@ class C12(Prop):
             W = rng.randrange(1, 7)
             B = rng.choice([1, size, rng.randrange(1, size + 1)])
             M = rng.choice([0, 1, 2, 7, 20, rng.randrange(0, 60 if quick else 400)])
-            out.append({"name": "wqrun%d" % c, "ops": ["wqrun size=%d workers=%d blocks=%d items=%d seed=%d pert=%d lazy=%d" % (
-                size, W, B, M, rng.randrange(1, 1 << 30), rng.choice([0, 10, 30, 60, 90]), rng.random() < 0.4)]})
+            out.append({"name": "wqrun%d" % c, "ops": ["wqrun size=%d workers=%d blocks=%d items=%d seed=%d pert=%d lazy=%d slow=%s" % (
+                size, W, B, M, rng.randrange(1, 1 << 30), rng.choice([0, 10, 30, 60, 90]), rng.random() < 0.4, rng.choice(["-", "-", "R", "W"]))]})
             stats["wqrun"] += 1
         # queue size <= number of workers (the reader and the workers keep hitting empty / single-slot queues), every run
         for (size, W, B) in [(1, 1, 1), (1, 2, 1), (1, 4, 1), (1, 6, 1), (2, 2, 2), (2, 3, 1), (2, 4, 2), (2, 6, 2), (3, 3, 3), (3, 6, 2), (4, 4, 4), (4, 6, 3)]:
-            out.append({"name": "wqrun-small-%d-%d-%d" % (size, W, B), "ops": ["wqrun size=%d workers=%d blocks=%d items=%d seed=%d pert=%d lazy=%d" % (
-                size, W, B, rng.randrange(10, 45), rng.randrange(1, 1 << 30), rng.choice([0, 30, 60, 90]), (size + W + B) % 2)]})
+            out.append({"name": "wqrun-small-%d-%d-%d" % (size, W, B), "ops": ["wqrun size=%d workers=%d blocks=%d items=%d seed=%d pert=%d lazy=%d slow=%s" % (
+                size, W, B, rng.randrange(10, 45), rng.randrange(1, 1 << 30), rng.choice([0, 30, 60, 90]), (size + W + B) % 2, "-RW"[(size + W) % 3])]})
             stats["wqrun"] += 1
         # --- start rendezvous
         for c in range(60 if quick else 600):
@@ -570,12 +589,18 @@ class C12(Prop):
                     while off == 8 and (t ^ m) == 6: m = rng.randrange(1, 256)       # eslNONSTANDARD: esl_alphabet_Create() aborts by design
                     if rng.random() < 0.5 and off == 8: m = rng.choice([x for x in (1, 2, 3, 4, 5, 6, 7) if (t ^ x) != 6])
                     return "dsqi:%d:%d" % (off, m)
-                if kind == "idxhdr": return "dsqi:%d:%d" % (rng.randrange(12, 52), rng.randrange(1, 256))
+                if kind == "idxhdr":
+                    off = rng.randrange(12, 52)
+                    # in a tree whose loader checks the header's nseq (bytes 36..43) a corrupted count is a fatal loader error: not for an in-process run
+                    if self.K("loaderChecksNseq") and 36 <= off < 44: off = rng.choice(list(range(12, 36)) + list(range(44, 52)))
+                    return "dsqi:%d:%d" % (off, rng.randrange(1, 256))
                 if kind == "stub1": return "stub:%d:%d" % (rng.randrange(0, 30), rng.choice([1, 2, 16, 32, 0x80, rng.randrange(1, 256)]))
                 if kind == "stub": return "stub:%d:%d" % (rng.randrange(0, 200), rng.randrange(1, 256))
                 if kind == "trunc":
                     f = rng.choice(["dsqi", "dsqm", "dsqs", "stub"])
                     lim = {"dsqi": 52 + 16 * nseq, "dsqm": 7, "dsqs": 7, "stub": 40}[f]     # data files cut inside the header only: a loader that runs out of data is fatal by design
+                    if f == "dsqi" and self.K("loaderChecksNseq"):      # a cut index is a fatal loader error in this tree: left to the forked dsqcut runs
+                        return "dsqi:trunc:%d" % rng.choice([0, 4, 8, 51, rng.randrange(0, 52), 52 + 16 * nseq, 52 + 16 * nseq + 3])
                     return "%s:trunc:%d" % (f, rng.choice([0, 1, 3, 4, 7, rng.randrange(0, lim + 1)]) if f != "dsqi" else rng.choice([0, 4, 8, 51, 52, 52 + 16 * rng.randrange(0, nseq + 1), rng.randrange(0, lim + 1)]))
                 return "-"
             mut = one(kind) if kind != "two" else one(rng.choice(["magic", "tag", "stub1"])) + "," + one(rng.choice(["magic", "tag", "idxhdr", "trunc"]))
@@ -696,6 +721,7 @@ class C12(Prop):
                 ctx.stats["trace_steps_validated"] = ctx.stats.get("trace_steps_validated", 0) + tr.count(";") + 1
                 if not res[0].startswith("ok "):
                     return (i, "trace: " + res[0][:400], "trace: a path of the work-queue model")
+                self.cover(ctx, "workqueue", res[0])
             if op.startswith("dsqrt ") and " trace=" in l and not l.endswith(" trace=-"):
                 tr = l[l.find(" trace=") + 7:]
                 a, r = kv(op), kv(l[:l.find(" trace=")])
@@ -705,13 +731,38 @@ class C12(Prop):
                 ctx.stats["trace_steps_validated"] = ctx.stats.get("trace_steps_validated", 0) + tr.count(";") + 1
                 if not res[0].startswith("ok "):
                     return (i, "trace: " + res[0][:400], "trace: a path of the dsqdata pipeline model")
+                self.cover(ctx, "pipeline", res[0])
             if op.startswith("thrun ") and " trace=" in l:
                 tr = l[l.find(" trace=") + 7:]
                 res = [self.validate(ctx, "thtrace ev=%s" % tr)]
                 ctx.stats["trace_steps_validated"] = ctx.stats.get("trace_steps_validated", 0) + tr.count(";") + 1
                 if not res[0].startswith("ok "):
                     return (i, "trace: " + res[0][:400], "trace: a path of the start-rendezvous model")
+                self.cover(ctx, "threads", res[0])
         return None
+
+    # the branches of the three transition relations (as the driver names them: Driver/C12.lean wqKind / pipeKinds / thValidate)
+    UNIVERSE = {
+        "pipeline": ["L-create-chunk", "L-top-wait-recycling-empty", "L-top-pop-recycled", "L-put-wait-inbox-full", "L-put", "L-eod-wait-inbox-full", "L-eod-set",
+                     "L-drain-wait", "L-drain-free", "U-get-wait", "U-get-chunk", "U-get-eod", "U-put-wait-outbox-full", "U-put-chunk", "U-put-eod",
+                     "C-read-sleep", "C-read-chunk", "C-read-eof", "C-wake-sleep-again", "C-wake-chunk", "C-wake-eof", "C-recycle", "C-recycle-wakes-loader",
+                     "L-top-pop-recycled/woken", "L-put/woken", "L-eod-set/woken", "L-drain-free/woken", "U-get-chunk/woken", "U-get-eod/woken", "U-put-chunk/woken", "U-put-eod/woken",
+                     "L-top-wait-recycling-empty/woken", "L-put-wait-inbox-full/woken", "L-eod-wait-inbox-full/woken", "L-drain-wait/woken", "U-get-wait/woken", "U-put-wait-outbox-full/woken",
+                     "S-all-unpackers-asleep", "S-consumer-and-loader-asleep", "S-recycling-depth>=3", "S-consumers-hold>=3", "S-all-boxes-full"],
+        "workqueue": ["init", "init-wakes-reader", "remove", "remove-empty", "reset-moves", "reset-nothing", "complete-broadcast", "complete-nobody",
+                      "rupd-in-take", "rupd-in-sleep", "rupd-in-noout", "rupd-in-wakes-workers-take", "rupd-in-wakes-workers-sleep", "rupd-in-wakes-workers-noout",
+                      "rupd-noin-take", "rupd-noin-sleep", "rupd-noin-noout", "rwake-take", "rwake-sleep",
+                      "wupd-in-take", "wupd-in-sleep", "wupd-in-noout", "wupd-in-wakes-reader-take", "wupd-in-wakes-reader-sleep", "wupd-in-wakes-reader-noout",
+                      "wupd-noin-take", "wupd-noin-sleep", "wupd-noin-noout", "wwake-take", "wwake-sleep"],
+        "threads": ["Tf-sleep", "Tf-pass", "Tw-sleep", "Tw-pass", "Af-sleep", "Aw-sleep", "Aw-pass", "finish"],
+    }
+
+    def cover(self, ctx, model, res):
+        i = res.find(" cov=")
+        if i < 0: return
+        cov = ctx.stats.setdefault("transition_branch_hits", {}).setdefault(model, {})
+        for k in res[i + 5:].split()[0].split("+"):
+            if k != "-": cov[k] = cov.get(k, 0) + 1
 
     def nontrivial(self, case, out):
         if not out or any(not l.startswith(("ok", "eod")) and not l.startswith(("wouldblock", "disabled", "overflow")) for l in out):
@@ -851,6 +902,10 @@ class C12(Prop):
     def extra_evidence(self, ctx):
         return {"input_distribution": ctx.stats.get("inputs", {}), "trace_steps_validated": ctx.stats.get("trace_steps_validated", 0),
                 "file_bytes_compared_exactly": ctx.stats.get("bytes_compared", 0),
+                "transition_coverage": {m: {"branches_covered": len([k for k in self.UNIVERSE[m] if k in c]),
+                                            "branches_named": len(self.UNIVERSE[m]), "not_covered_this_run": [k for k in self.UNIVERSE[m] if k not in c],
+                                            "outside_the_list": [k for k in c if k not in self.UNIVERSE[m]]}
+                                        for m, c in ctx.stats.get("transition_branch_hits", {}).items()},
                 "cut_runs_ended_by_loader_fatal": ctx.stats.get("cut_fatal", 0), "chunks_delivered_before_those_fatals": ctx.stats.get("cut_fatal_delivered_chunks", 0)}
 
 
